@@ -212,7 +212,7 @@ func (ex *Exec) evalRecv(st *State, sel *ast.SelectorExpr, s *types.Selection, c
 func (ex *Exec) evalArgs(st *State, call *ast.CallExpr, sig *types.Signature) []Val {
 	var args []Val
 	np := sig.Params().Len()
-	if len(call.Args) == 1 && np > 1 {
+	if tup, isTuple := ex.firstArgType(call).(*types.Tuple); len(call.Args) == 1 && np > 1 && isTuple && tup.Len() > 1 {
 		// f(g()) with multi-value g
 		vs := ex.evalMulti(st, call.Args[0], np)
 		for i, v := range vs {
@@ -498,7 +498,11 @@ func (ex *Exec) callInPackage(st *State, call *ast.CallExpr, fi *FuncInfo, recv 
 
 func (ex *Exec) inlineAlways(fi *FuncInfo) bool { return false }
 
-const maxInlineDepth = 4
+var maxInlineDepth = 4
+
+// sweepMode: callees without a contract are inlined only when small; otherwise summarised
+// (frame havoc + typed results).
+var sweepMode = false
 
 func (ex *Exec) inline(st *State, call ast.Node, fi *FuncInfo, recv *Val, args []Val) []Val {
 	for _, f := range ex.inlineStack {
@@ -506,8 +510,8 @@ func (ex *Exec) inline(st *State, call ast.Node, fi *FuncInfo, recv *Val, args [
 			ex.unsupported(call, "recursive call to %s without contract", fi.Key)
 		}
 	}
-	if len(ex.inlineStack) >= maxInlineDepth {
-		ex.note("call to " + fi.Key + " beyond inline depth: results and effects havocked")
+	if len(ex.inlineStack) >= maxInlineDepth || (sweepMode && len(ex.inlineStack) >= 1 && !ex.smallBody(fi)) || (sweepMode && len(ex.inlineStack) == 0 && ex.curFn != nil && !ex.smallBody(fi) && fi.Lit == nil) {
+		ex.note("call to " + fi.Key + " summarised: effects havocked (syntactic frame), results typed only")
 		ex.havocFor(st, ex.funcModSet(fi, 0), "deep."+sanitize(fi.Key))
 		return ex.havocResults(st, fi.Sig, "deep."+sanitize(fi.Key))
 	}
@@ -978,4 +982,29 @@ func (ex *Exec) callInterface(st *State, call *ast.CallExpr, s *types.Selection,
 	ex.note("interface call " + ex.exprStr(call.Fun) + " over-approximated by the union of the effects of " + strings.Join(names, ","))
 	ex.havocFor(st, ms, "if."+sanitize(s.Obj().Name()))
 	return ex.havocResults(st, sig, "if."+sanitize(s.Obj().Name()))
+}
+
+func (ex *Exec) firstArgType(call *ast.CallExpr) types.Type {
+	if len(call.Args) == 0 {
+		return nil
+	}
+	return ex.typeOf(call.Args[0])
+}
+
+// smallBody: few statements, no loops (cheap and precise to inline).
+func (ex *Exec) smallBody(fi *FuncInfo) bool {
+	n := 0
+	loops := false
+	ast.Inspect(fi.Body, func(nd ast.Node) bool {
+		switch nd.(type) {
+		case ast.Stmt:
+			n++
+		}
+		switch nd.(type) {
+		case *ast.ForStmt, *ast.RangeStmt:
+			loops = true
+		}
+		return true
+	})
+	return n <= 14 && !loops
 }
